@@ -22,6 +22,49 @@ func Now() time.Time {
 	return time.Now()
 }
 
+// Wrap makes every use of the mock clock a visible operation of the scheduler: reading the time
+// reads the clock object, creating timers and advancing write it.
+func Wrap(m *clock.Mock) clock.Clock { return vclock{m} }
+
+type vclock struct{ *clock.Mock }
+
+func (c vclock) Now() time.Time { vsched.ClockOp(false, "now"); return c.Mock.Now() }
+func (c vclock) Since(t time.Time) time.Duration {
+	vsched.ClockOp(false, "since")
+	return c.Mock.Since(t)
+}
+func (c vclock) Until(t time.Time) time.Duration {
+	vsched.ClockOp(false, "until")
+	return c.Mock.Until(t)
+}
+func (c vclock) After(d time.Duration) <-chan time.Time {
+	vsched.ClockOp(true, "after")
+	return c.Mock.After(d)
+}
+func (c vclock) Tick(d time.Duration) <-chan time.Time {
+	vsched.ClockOp(true, "tick")
+	return c.Mock.Tick(d)
+}
+func (c vclock) NewTimer(d time.Duration) *clock.Timer {
+	vsched.ClockOp(true, "newtimer")
+	return c.Mock.NewTimer(d)
+}
+func (c vclock) NewTicker(d time.Duration) *clock.Ticker {
+	vsched.ClockOp(true, "newticker")
+	return c.Mock.NewTicker(d)
+}
+func (c vclock) AfterFunc(d time.Duration, f func()) *clock.Timer {
+	vsched.ClockOp(true, "afterfunc")
+	return c.Mock.AfterFunc(d, f)
+}
+func (c vclock) Sleep(d time.Duration) { vsched.Recv(c.After(d)) }
+
+// Advance moves the mock clock as one visible write of the clock object.
+func Advance(m *clock.Mock, d time.Duration) {
+	vsched.ClockOp(true, "advance")
+	m.Add(d)
+}
+
 func Since(t time.Time) time.Duration { return Now().Sub(t) }
 func Until(t time.Time) time.Duration { return t.Sub(Now()) }
 
